@@ -185,3 +185,80 @@ def unrolled_derivative(driver, iters=18):
             exact[i, j] = S.rv(c1 / (1 - c1 * gam)) * H0[i, j]
     fixed = [[(c1 * Hv[i][j] + c0[i][j]) / (1 - c1 * gam) for j in range(n)] for i in range(n)]
     return tan, exact, val, fixed, H0
+
+
+def ksa_violations(c0, c1, c2, maxit=9):
+    """KSA driver (scf_forward3) on a batch of three molecules of different size (9, 6 and 5 orbitals) with recorder callees
+    that reproduce the SHAPES of the real ones: the finite-temperature density step packs the molecules it is given to the
+    size of the largest of them.  Molecule b converges at iteration c_b.  Returns a list of problems (exceptions raised by
+    the driver, misaligned per-molecule inputs, wrong convergence flags)."""
+    from seqm.seqm_functions import scf_loop as SL
+
+    nmol, molsize = 3, 3
+    N = 4 * molsize
+    cs = (c0, c1, c2)
+    nHv = torch.tensor([2, 1, 1])
+    nHy = torch.tensor([1, 2, 1])
+    nOcc = torch.tensor([4, 3, 2])
+    tag = torch.tensor([1.0, 2.0, 3.0], dtype=torch.float64)
+    Hc = torch.eye(N, dtype=torch.float64).repeat(nmol, 1, 1) * tag.view(-1, 1, 1)
+    g = torch.Generator().manual_seed(5)
+    R = torch.rand(N, N, generator=g, dtype=torch.float64)
+    R = 0.1 * (R + R.T)
+    P0 = (0.2 * torch.eye(N, dtype=torch.float64) + R).repeat(nmol, 1, 1) * (1 + 0.1 * tag).view(-1, 1, 1)
+    bad = []
+    it = [0]
+
+    def ids_of(X):
+        return [int(round(float(X[i, 0, 0]))) for i in range(X.shape[0])]
+
+    def fock(nmol_, molsize_, P, M, *a):
+        return Hc + 0.01 * (P - P.diagonal(dim1=1, dim2=2).diag_embed())  # the (0,0) element keeps the molecule's tag
+
+    def fermi(F, T, occ, hv, hy, kB, scf_backward=0):
+        B = F.shape[0]
+        ids = ids_of(F)
+        want = [(int(nHv[i - 1]), int(nHy[i - 1]), int(nOcc[i - 1])) for i in ids]
+        got = [(int(a), int(b), int(c)) for a, b, c in zip(hv, hy, occ)]
+        if got != want:
+            bad.append("density step: Fock rows of molecules %s arrive with the atom/occupation counts %s" % (ids, got))
+        Mw = int((4 * hv + hy).max())  # packed width = largest molecule of the sub-batch
+        D = 0.5 * F + 0.05 * torch.ones_like(F)
+        t = torch.tensor([float(i) for i in ids], dtype=torch.float64)
+        return (D, t.clone(), torch.eye(Mw, dtype=torch.float64).repeat(B, 1, 1), t.view(-1, 1).repeat(1, Mw), 0.5 * torch.ones(B, Mw, dtype=torch.float64), t.view(-1, 1).clone(), torch.ones(B, Mw, dtype=torch.float64))
+
+    def canon(FO1, T, hv, hy, QQ, e, mu0, niter, kB, Occ_mask):
+        if not (QQ.shape[0] == FO1.shape[0] == e.shape[0] == Occ_mask.shape[0]):
+            bad.append("response step: operands of different batch size")
+        return 0.3 * FO1.transpose(1, 2) + 0.02 * FO1
+
+    def energy(P, F, H):
+        it[0] += 1
+        out = []
+        for i in ids_of(H):
+            out.append(5.0 if it[0] >= cs[i - 1] else 10.0 + it[0])
+        return torch.tensor(out, dtype=torch.float64)
+
+    saved = {k: getattr(SL, k) for k in ("fock_restricted", "Fermi_Q", "Canon_DM_PRT", "G", "elec_energy", "reshape_Hcore", "MAX_ITER")}
+    SL.fock_restricted = fock
+    SL.Fermi_Q = fermi
+    SL.Canon_DM_PRT = canon
+    SL.G = lambda nmol_, molsize_, dD, *a: 0.5 * dD
+    SL.elec_energy = energy
+    SL.reshape_Hcore = lambda M, nmol_, molsize_, method: Hc
+    SL.MAX_ITER = maxit
+    P = nc = None
+    try:
+        with contextlib.redirect_stdout(io.StringIO()):
+            P, nc = SL.scf_forward3(Hc.clone(), None, None, None, None, None, None, None, nHy, nHv, torch.tensor([0, 0, 0]), nOcc, nmol, molsize, None, None, None, None, P0.clone(), torch.tensor(1e-6, dtype=torch.float64), "AM1", None, None, None, None, None, None, {"max_rank": 2, "err_threshold": 0.0, "T_el": 1500.0}, backward=False, verbose=False)
+    except Exception as ex:  # noqa
+        bad.append("KSA driver raised %s: %s" % (type(ex).__name__, str(ex)[:160]))
+    finally:
+        for k, v in saved.items():
+            setattr(SL, k, v)
+    if nc is not None:
+        for b in range(nmol):
+            # molecule b is converged from iteration c_b + 1 on (its model energy stops changing)
+            if bool(nc[b]) != bool(cs[b] + 1 > it[0]):
+                bad.append("molecule %d: reported notconverged=%s after %d iterations although it converges at iteration %d" % (b, bool(nc[b]), it[0], cs[b] + 1))
+    return bad
